@@ -300,4 +300,115 @@ theorem shape_empty_policy (hs : Shape sub now visit latestRes failing o r) (har
 end
 
 
+
+theorem groupDecision_some (sub : Int → Dur → Int) (now : Int) (p : Policy) (grp : List PSnap) (rep : GroupReport)
+    (h : groupDecision sub now p grp = some rep) :
+    ∃ ds, applyPolicy sub now grp p = .ok ds ∧ rep.keep = (keepOf ds).map (·.sn.id) ∧
+      rep.remove = (removeOf ds).map (·.sn.id) ∧ (p.empty = false → keepOf ds ≠ []) := by
+  unfold groupDecision at h
+  split at h
+  · cases h
+  · rename_i ds hds
+    dsimp only at h
+    split at h
+    · cases h
+    · rename_i hcond
+      injection h with h
+      subst h
+      refine ⟨ds, hds, rfl, rfl, ?_⟩
+      intro hp he
+      simp [hp, he] at hcond
+
+theorem nodup_of_map {α β} (f : α → β) (l : List α) (h : (l.map f).Nodup) : l.Nodup :=
+  List.Pairwise.of_map f (fun _ _ hne e => hne (by rw [e])) h
+
+theorem inj_of_nodup_map {α β} (f : α → β) (l : List α) (h : (l.map f).Nodup) :
+    ∀ a ∈ l, ∀ b ∈ l, f a = f b → a = b := by
+  induction l with
+  | nil => intro a ha; cases ha
+  | cons x xs ih =>
+    simp only [List.map_cons, List.nodup_cons, List.mem_map, not_exists, not_and] at h
+    intro a ha b hb hab
+    rcases List.mem_cons.mp ha with ha1 | ha1 <;> rcases List.mem_cons.mp hb with hb1 | hb1
+    · rw [ha1, hb1]
+    · rw [ha1] at hab; exact absurd hab.symm (h.1 b hb1)
+    · rw [hb1] at hab; exact absurd hab (h.1 a ha1)
+    · exact ih h.2 a ha1 b hb1 hab
+
+section
+variable {sub : Int → Dur → Int} {now : Int} {visit : List PSnap} {latestRes : Option Snap}
+  {failing : List Nat} {o : Opts} {r : Run}
+
+/-- **no_group_emptied** at the level of the repository: with a non-empty policy, every group of
+    the selected snapshots still has a snapshot that is not removed (whenever ids are distinct) -/
+theorem shape_group_survives (hs : Shape sub now visit latestRes failing o r) (hargs : o.args = [])
+    (hp : o.policy.empty = false) (hids : (visit.map (·.sn.id)).Nodup) :
+    ∀ g ∈ groupP o.groupBy (visit.filter fun s => o.filter.matches s.sn), ∃ s ∈ g.2, s.sn.id ∉ r.removed := by
+  have hvn : visit.Nodup := nodup_of_map _ _ hids
+  have hinj : ∀ a ∈ visit, ∀ b ∈ visit, a.sn.id = b.sn.id → a = b := inj_of_nodup_map _ _ hids
+  obtain ⟨_, hgrp, _⟩ := Restic.Props.C24.groupWith_partition (fun s : PSnap => keyOf o.groupBy s.sn)
+    (visit.filter fun s => o.filter.matches s.sn)
+  have hrem := (shape_removed hs).1
+  have hrepd := shape_reported hs hargs
+  cases hs with
+  | aborted oc _ _ =>
+    intro g hg
+    obtain ⟨k, grp⟩ := g
+    have hne := (hgrp k grp hg).2
+    cases grp with
+    | nil => exact absurd rfl hne
+    | cons a t => exact ⟨a, by simp, by simp [abort]⟩
+  | ids ha _ => exact absurd hargs ha
+  | policy _ _ reports hrep hrep' =>
+    intro g hg
+    obtain ⟨k, grp⟩ := g
+    obtain ⟨rep, hrepm, hdec⟩ := hrep (k, grp) hg
+    obtain ⟨ds, hds, hk, hr, hne⟩ := groupDecision_some _ _ _ _ _ hdec
+    have hperm := Restic.Props.C22.partition sub now grp o.policy ds hds
+    have hgrpeq := (hgrp k grp hg).1
+    have hsub : ∀ x ∈ grp, x ∈ visit ∧ keyOf o.groupBy x.sn = k := by
+      intro x hx
+      rw [hgrpeq] at hx
+      simp only [List.mem_filter, decide_eq_true_eq] at hx
+      exact ⟨hx.1.1, hx.2⟩
+    cases hko : keepOf ds with
+    | nil => exact absurd hko (hne hp)
+    | cons x t =>
+      have hxk : x ∈ keepOf ds := by rw [hko]; simp
+      have hxg : x ∈ grp := hperm.mem_iff.mp (List.mem_append_left _ hxk)
+      refine ⟨x, hxg, ?_⟩
+      intro hxr
+      have hxs := hrem _ hxr
+      rw [hrepd] at hxs
+      obtain ⟨rep', hrep'm, hxin⟩ := hxs
+      rw [(removal_groups _ _ _ _).1] at hrep'm
+      obtain ⟨⟨k', grp'⟩, hg', hdec'⟩ := hrep' rep' hrep'm
+      obtain ⟨ds', hds', _, hr', _⟩ := groupDecision_some _ _ _ _ _ hdec'
+      rw [hr', List.mem_map] at hxin
+      obtain ⟨y, hyr, hyid⟩ := hxin
+      have hperm' := Restic.Props.C22.partition sub now grp' o.policy ds' hds'
+      have hyg : y ∈ grp' := hperm'.mem_iff.mp (List.mem_append_right _ hyr)
+      have hgrpeq' := (hgrp k' grp' hg').1
+      have hy : y ∈ visit ∧ keyOf o.groupBy y.sn = k' := by
+        rw [hgrpeq'] at hyg
+        simp only [List.mem_filter, decide_eq_true_eq] at hyg
+        exact ⟨hyg.1.1, hyg.2⟩
+      have hxy : y = x := hinj y hy.1 x (hsub x hxg).1 hyid
+      subst hxy
+      have hkk : k = k' := (hsub y hxg).2.symm.trans hy.2
+      subst hkk
+      have hgg : grp = grp' := hgrpeq.trans hgrpeq'.symm
+      subst hgg
+      rw [hds] at hds'
+      injection hds' with hdd
+      subst hdd
+      have hgn : grp.Nodup := by
+        rw [hgrpeq]
+        exact (hvn.sublist List.filter_sublist).sublist List.filter_sublist
+      have := (hperm.nodup_iff.mpr hgn)
+      exact (List.nodup_append.mp this).2.2 y hxk y hyr rfl
+
+end
+
+
 end Restic.Props.C23
